@@ -78,6 +78,7 @@ type SimNode struct {
 	// the events it created beyond the anchor): the same thing as equivocation
 	// from the point of view of every property, so the node is not judged further
 	ReusedIndexStep int
+	LostData        bool // this incarnation started without the data of the previous one
 	traceSeq        int
 	AnchorAtReset    map[int]int // app epoch -> anchor block index the node reset to
 	AnchorRRAtReset  map[int]int
@@ -616,6 +617,7 @@ func (nw *Network) startNode(sn *SimNode, opts NodeOpts, current, genesis []*pee
 	sn.StoreClosed = false
 	sn.InsertFailedStep = -1
 	sn.ReusedIndexStep = -1
+	sn.LostData = sn.Incarnation > 1 && !opts.Bootstrap
 	sn.known = map[uint32]int{}
 	sn.has = map[string]bool{}
 	sn.order = nil
@@ -1113,5 +1115,9 @@ func pinSeed(cs CaseSpec) int64 {
 // unjudgedAfterReset: a node reset by fast-sync that could not insert what it
 // received (parents below its frame) or that re-used one of its own indexes.
 func (n *SimNode) unjudgedAfterReset() bool {
-	return n.ResetEpochs > 0 && (n.InsertFailedStep >= 0 || n.ReusedIndexStep >= 0)
+	// LostData: restarted without its data and without a successful fast-forward
+	// (it started again from nothing, although the others hold events it created
+	// in its previous life): when it then re-uses one of its indexes it has forked
+	// itself, which every property excludes
+	return (n.ResetEpochs > 0 && (n.InsertFailedStep >= 0 || n.ReusedIndexStep >= 0)) || (n.LostData && n.ReusedIndexStep >= 0)
 }
